@@ -255,6 +255,14 @@ def c03_fn(ctx, case):
     if fn == "arma_estimate" and (not np.all(np.isfinite(ra[0][1])) or (len(ra[0][1]) and float(np.max(np.abs(ra[0][1]))) > 50.0)):
         ctx.exclude("arma_estimate: near-singular modified Yule-Walker system (max|ar| > 50)")
         return
+    if fn == "aryule" and q.get("norm") == "unbiased":
+        # the unbiased lags need not be positive definite: a step of the recursion within 1e-2 of exact singularity (|k| = 1)
+        # divides by almost nothing and the later coefficients are decided by rounding (a thorough run: coefficients of 1e4,
+        # 8e-8 relative between x and e^{i} x).  Same rule as C03.unbiased.
+        kk = np.atleast_1d(np.asarray(ra[2][1]))
+        if kk.size and (not np.all(np.isfinite(kk)) or float(np.min(np.abs(1.0 - np.abs(kk) ** 2))) < 1e-2):
+            ctx.exclude("aryule/unbiased: a reflection coefficient within 1e-2 of the unit circle")
+            return
     rb = run_fn(fn, c * x, q)
     ctx.cls(label, "complex" if cplx else "real", "|c|>1" if ac > 1 else "|c|<1")
     ctx.nontrivial(nontriv(case["c"], x))
